@@ -368,10 +368,10 @@ int main()
         }
         uint8_t* block = static_cast<uint8_t*>(mem);
         uint8_t* msg = block + SENTINEL;   // SENTINEL is a multiple of 16: msg is 16-byte aligned
-        memset(block, 0xCD, SENTINEL);
+        for (long i = 0; i < SENTINEL; ++i) block[i] = uint8_t(i * 37 + 11);
         unhex(data, msg, n);
         unhex(tail, msg + n, t);
-        memset(msg + n + t, 0xCD, SENTINEL);
+        for (long i = 0; i < SENTINEL; ++i) msg[n + t + i] = uint8_t(i * 37 + 11);
         long ret = 0;
         if (!dispatch(type, msg, ret))
         {
@@ -382,12 +382,14 @@ int main()
         bool intact = true;
         for (long i = 0; i < SENTINEL; ++i)
         {
-            if (block[i] != 0xCD || msg[n + t + i] != 0xCD) intact = false;
+            if (block[i] != uint8_t(i * 37 + 11) || msg[n + t + i] != uint8_t(i * 37 + 11)) intact = false;
         }
         fputs("{\"data\":\"", stdout);
         puthex(msg, n);
         fputs("\",\"tail\":\"", stdout);
         puthex(msg + n, t);
+        fputs("\",\"post\":\"", stdout);
+        puthex(msg + n + t, SENTINEL);
         printf("\",\"ret\":%ld,\"sentinels_intact\":%s}\n", ret, intact ? "true" : "false");
         fflush(stdout);
         free(mem);
